@@ -35,6 +35,9 @@ func runC12(r *an.Run) {
 	c12SameBytes(r, m)
 	c12Descriptions(r, m)
 	c12Siblings(r, m)
+	// the modes can only agree if each file is processed once
+	c15OnceInOrder(r)
+	relabel(r, "R3-each-file-once-in-fixed-order", "R5-each-file-processed-once")
 }
 
 func c12NoMutationInDryRun(r *an.Run, m *runModel) {
